@@ -346,4 +346,144 @@ Section Step.
       + split; [eapply BinsAre_ext; [|exact F1]; intros w Hw; cbv beta; rewrite QF; lia|]. rewrite N1, QN. f_equal; lia.
       + split; [exact Fr1|]. repeat split; congruence.
   Qed.
+  Lemma SlotIs_frame cl cl' k S : get_p k cl' = get_p k cl -> get_n k cl' = get_n k cl -> SlotIs cl k S -> SlotIs cl' k S.
+  Proof. intros E1 E2 H. unfold SlotIs in *. rewrite E1, E2. exact H. Qed.
+
+  (* ---------------------------------------------------------------- the row step:
+     update_current_location at (row, c) turns the five fields that still hold the pieces of the
+     previous row (found in the same slots, C07_index_follow) into the pieces of (row, c) and
+     touches nothing else *)
+  Theorem update_loc_spec (s : st) :
+    let c := s_col s in let row := s_row s in
+    let tlo := tl_br e row c in let tro := tr_bl e row c in let leo := lead_ix e c in
+    0 < e_SL e -> length (s_cols s) = Z.to_nat (e_SL e) ->
+    SlotIs (slot s tlo) TL (at_ (bTL e) (c + 1) (row - 1)) ->
+    SlotIs (slot s tro) TR (at_ (bTR e) (c - 1) (row - 1)) ->
+    SlotIs (slot s tro) BL (at_ (bBL e) (c - 1) (row - 1)) ->
+    SlotIs (slot s tlo) BR (at_ (bBR e) (c + 1) (row - 1)) ->
+    SlotIs (slot s leo) ED (at_ (bED e) c (row - 1)) ->
+    let s' := update_loc e s in
+    SlotIs (slot s' tlo) TL (at_ (bTL e) c row) /\ SlotIs (slot s' tro) TR (at_ (bTR e) c row) /\
+    SlotIs (slot s' tro) BL (at_ (bBL e) c row) /\ SlotIs (slot s' tlo) BR (at_ (bBR e) c row) /\
+    SlotIs (slot s' leo) ED (at_ (bED e) c row) /\
+    (forall o' k', 0 <= o' ->
+       ~ (o' = tlo /\ (k' = TL \/ k' = BR)) -> ~ (o' = tro /\ (k' = TR \/ k' = BL)) -> ~ (o' = leo /\ k' = ED) ->
+       get_p k' (slot s' o') = get_p k' (slot s o') /\ get_n k' (slot s' o') = get_n k' (slot s o')) /\
+    length (s_cols s') = length (s_cols s) /\ s_acc s' = s_acc s /\ s_accn s' = s_accn s /\
+    s_last s' = s_last s /\ s_row s' = s_row s /\ s_col s' = s_col s.
+  Proof.
+    intros c row tlo tro leo HSL Hlen H1 H2 H3 H4 H5. cbv zeta. unfold update_loc.
+    fold c row. fold tlo tro leo.
+    assert (Btl : 0 <= tlo < e_SL e) by (apply Z.mod_pos_bound; exact HSL).
+    assert (Btr : 0 <= tro < e_SL e) by (apply Z.mod_pos_bound; exact HSL).
+    assert (Ble : 0 <= leo < e_SL e) by (apply Z.mod_pos_bound; exact HSL).
+    pose proof (fun q => hist_row_step_TL e HR c row q) as QTL. pose proof (fun q => hist_row_step_TR e HR c row q) as QTR.
+    pose proof (fun q => hist_row_step_BL e HR c row q) as QBL. pose proof (fun q => hist_row_step_BR e HR c row q) as QBR.
+    assert (QED : forall q, cnt e (at_ (bED e) c row) q = cnt e (at_ (bED e) c (row - 1)) q
+                    - pixv e (sc_last_le e) c row q + pixv e (sc_le e) c row q)
+      by (intros q; first [apply (hist_row_step_ED e Ha)|apply (hist_row_step_ED e Ha HR)|apply (hist_row_step_ED e HR)]).
+    (* 1: top_left *)
+    destruct (upd_hist_spec s tlo TL _ _ (sc_last_tl e) (sc_tl e) ltac:(lia) ltac:(lia) H1 QTL)
+      as (G1 & F1 & L1 & A1 & N1 & T1 & R1 & K1).
+    set (s1 := upd_hist e s tlo TL (sc_last_tl e) (sc_tl e)) in *.
+    assert (H2' : SlotIs (slot s1 tro) TR (at_ (bTR e) (c - 1) (row - 1)))
+      by (destruct (F1 tro TR ltac:(lia) ltac:(right; discriminate)) as [E1 E2]; eapply SlotIs_frame; eassumption).
+    (* 2: top_right *)
+    assert (QTR' : forall q, cnt e (at_ (bTR e) c row) q = cnt e (at_ (bTR e) (c - 1) (row - 1)) q
+                     - pixv e (sc_last_tr e) (s_col s1) (s_row s1) q + pixv e (sc_tr e) (s_col s1) (s_row s1) q)
+      by (rewrite K1, R1; exact QTR).
+    destruct (upd_hist_spec s1 tro TR _ _ (sc_last_tr e) (sc_tr e) ltac:(lia) ltac:(lia) H2' QTR')
+      as (G2 & F2 & L2 & A2 & N2 & T2 & R2 & K2).
+    set (s2 := upd_hist e s1 tro TR (sc_last_tr e) (sc_tr e)) in *.
+    assert (H3' : SlotIs (slot s2 tro) BL (at_ (bBL e) (c - 1) (row - 1))).
+    { destruct (F2 tro BL ltac:(lia) ltac:(right; discriminate)) as [E1 E2].
+      destruct (F1 tro BL ltac:(lia) ltac:(right; discriminate)) as [E3 E4].
+      eapply SlotIs_frame; [rewrite E1; exact E3|rewrite E2; exact E4|exact H3]. }
+    (* 3: bottom_left *)
+    assert (QBL' : forall q, cnt e (at_ (bBL e) c row) q = cnt e (at_ (bBL e) (c - 1) (row - 1)) q
+                     - pixv e (sc_last_bl e) (s_col s2) (s_row s2) q + pixv e (sc_bl e) (s_col s2) (s_row s2) q)
+      by (rewrite K2, R2, K1, R1; exact QBL).
+    destruct (upd_hist_spec s2 tro BL _ _ (sc_last_bl e) (sc_bl e) ltac:(lia) ltac:(lia) H3' QBL')
+      as (G3 & F3 & L3 & A3 & N3 & T3 & R3 & K3).
+    set (s3 := upd_hist e s2 tro BL (sc_last_bl e) (sc_bl e)) in *.
+    assert (H4' : SlotIs (slot s3 tlo) BR (at_ (bBR e) (c + 1) (row - 1))).
+    { destruct (F3 tlo BR ltac:(lia) ltac:(right; discriminate)) as [E1 E2].
+      destruct (F2 tlo BR ltac:(lia) ltac:(right; discriminate)) as [E3 E4].
+      destruct (F1 tlo BR ltac:(lia) ltac:(right; discriminate)) as [E5 E6].
+      eapply SlotIs_frame; [rewrite E1, E3; exact E5|rewrite E2, E4; exact E6|exact H4]. }
+    (* 4: bottom_right *)
+    assert (QBR' : forall q, cnt e (at_ (bBR e) c row) q = cnt e (at_ (bBR e) (c + 1) (row - 1)) q
+                     - pixv e (sc_last_br e) (s_col s3) (s_row s3) q + pixv e (sc_br e) (s_col s3) (s_row s3) q)
+      by (rewrite K3, R3, K2, R2, K1, R1; exact QBR).
+    destruct (upd_hist_spec s3 tlo BR _ _ (sc_last_br e) (sc_br e) ltac:(lia) ltac:(lia) H4' QBR')
+      as (G4 & F4 & L4 & A4 & N4 & T4 & R4 & K4).
+    set (s4 := upd_hist e s3 tlo BR (sc_last_br e) (sc_br e)) in *.
+    assert (H5' : SlotIs (slot s4 leo) ED (at_ (bED e) c (row - 1))).
+    { destruct (F4 leo ED ltac:(lia) ltac:(right; discriminate)) as [E1 E2].
+      destruct (F3 leo ED ltac:(lia) ltac:(right; discriminate)) as [E3 E4].
+      destruct (F2 leo ED ltac:(lia) ltac:(right; discriminate)) as [E5 E6].
+      destruct (F1 leo ED ltac:(lia) ltac:(right; discriminate)) as [E7 E8].
+      eapply SlotIs_frame; [rewrite E1, E3, E5; exact E7|rewrite E2, E4, E6; exact E8|exact H5]. }
+    (* 5: edge *)
+    assert (QED' : forall q, cnt e (at_ (bED e) c row) q = cnt e (at_ (bED e) c (row - 1)) q
+                     - pixv e (sc_last_le e) (s_col s4) (s_row s4) q + pixv e (sc_le e) (s_col s4) (s_row s4) q)
+      by (rewrite K4, R4, K3, R3, K2, R2, K1, R1; exact QED).
+    destruct (upd_hist_spec s4 leo ED _ _ (sc_last_le e) (sc_le e) ltac:(lia) ltac:(lia) H5' QED')
+      as (G5 & F5 & L5 & A5 & N5 & T5 & R5 & K5).
+    set (s5 := upd_hist e s4 leo ED (sc_last_le e) (sc_le e)) in *.
+    (* the fields established earlier survive the later updates *)
+    assert (keep : forall o' k' (sa sb : st),
+              (get_p k' (slot sb o') = get_p k' (slot sa o') /\ get_n k' (slot sb o') = get_n k' (slot sa o')) ->
+              forall S, SlotIs (slot sa o') k' S -> SlotIs (slot sb o') k' S)
+      by (intros o' k' sa sb [E1 E2] S HS; eapply SlotIs_frame; eassumption).
+    split. { apply (keep tlo TL s4 s5); [apply F5; [lia|right; discriminate]|].
+             apply (keep tlo TL s3 s4); [apply F4; [lia|right; discriminate]|].
+             apply (keep tlo TL s2 s3); [apply F3; [lia|right; discriminate]|].
+             apply (keep tlo TL s1 s2); [apply F2; [lia|right; discriminate]|]. exact G1. }
+    split. { apply (keep tro TR s4 s5); [apply F5; [lia|right; discriminate]|].
+             apply (keep tro TR s3 s4); [apply F4; [lia|right; discriminate]|].
+             apply (keep tro TR s2 s3); [apply F3; [lia|right; discriminate]|]. exact G2. }
+    split. { apply (keep tro BL s4 s5); [apply F5; [lia|right; discriminate]|].
+             apply (keep tro BL s3 s4); [apply F4; [lia|right; discriminate]|]. exact G3. }
+    split. { apply (keep tlo BR s4 s5); [apply F5; [lia|right; discriminate]|]. exact G4. }
+    split; [exact G5|]. split.
+    - intros o' k' Ho' X1 X2 X3.
+      assert (D5 : o' <> leo \/ k' <> ED) by (destruct (Z.eq_dec o' leo); [right; intro; subst; tauto|left; assumption]).
+      assert (D4 : o' <> tlo \/ k' <> BR) by (destruct (Z.eq_dec o' tlo); [right; intro; subst; tauto|left; assumption]).
+      assert (D3 : o' <> tro \/ k' <> BL) by (destruct (Z.eq_dec o' tro); [right; intro; subst; tauto|left; assumption]).
+      assert (D2 : o' <> tro \/ k' <> TR) by (destruct (Z.eq_dec o' tro); [right; intro; subst; tauto|left; assumption]).
+      assert (D1 : o' <> tlo \/ k' <> TL) by (destruct (Z.eq_dec o' tlo); [right; intro; subst; tauto|left; assumption]).
+      destruct (F5 o' k' Ho' D5) as [E1 E2]. destruct (F4 o' k' Ho' D4) as [E3 E4]. destruct (F3 o' k' Ho' D3) as [E5 E6].
+      destruct (F2 o' k' Ho' D2) as [E7 E8]. destruct (F1 o' k' Ho' D1) as [E9 E10].
+      split; congruence.
+    - split; [rewrite L5, L4, L3, L2, L1; reflexivity|]. split; [rewrite A5, A4, A3, A2, A1; reflexivity|].
+      split; [rewrite N5, N4, N3, N2, N1; reflexivity|]. split; [rewrite T5, T4, T3, T2, T1; reflexivity|].
+      split; [rewrite R5, R4, R3, R2, R1; reflexivity|rewrite K5, K4, K3, K2, K1; reflexivity].
+  Qed.
 End Step.
+
+(* the five row steps of layer A in one statement *)
+Theorem hist_row_steps (e : env) : 1 <= e_a2 e -> e_a2 e < e_R e -> forall (c row : Z) (q : Z -> bool),
+  cnt e (at_ (bTL e) c row) q = cnt e (at_ (bTL e) (c + 1) (row - 1)) q - pixv e (sc_last_tl e) c row q + pixv e (sc_tl e) c row q /\
+  cnt e (at_ (bBR e) c row) q = cnt e (at_ (bBR e) (c + 1) (row - 1)) q - pixv e (sc_last_br e) c row q + pixv e (sc_br e) c row q /\
+  cnt e (at_ (bTR e) c row) q = cnt e (at_ (bTR e) (c - 1) (row - 1)) q - pixv e (sc_last_tr e) c row q + pixv e (sc_tr e) c row q /\
+  cnt e (at_ (bBL e) c row) q = cnt e (at_ (bBL e) (c - 1) (row - 1)) q - pixv e (sc_last_bl e) c row q + pixv e (sc_bl e) c row q /\
+  cnt e (at_ (bED e) c row) q = cnt e (at_ (bED e) c (row - 1)) q - pixv e (sc_last_le e) c row q + pixv e (sc_le e) c row q.
+Proof.
+  intros Ha HR c row q.
+  split; [apply hist_row_step_TL; exact HR|]. split; [apply hist_row_step_BR; exact HR|].
+  split; [apply hist_row_step_TR; exact HR|]. split; [apply hist_row_step_BL; exact HR|].
+  apply hist_row_step_ED; exact Ha.
+Qed.
+
+Example step_hyps_ex :
+  let e := mk_env Fixed [[3; 200]; [17; 3]] [[true; true]; [true; false]] 2 50 in
+  1 <= e_a2 e /\ e_a2 e < e_R e /\ 0 < e_SL e /\ Data8 e /\ hN e (Soct e 0 0) = 3 /\ hN e (Soct e 0 0) < M16.
+Proof.
+  cbv zeta. split; [vm_compute; congruence|]. split; [vm_compute; reflexivity|]. split; [vm_compute; reflexivity|].
+  split; [|split; vm_compute; reflexivity].
+  intros x y H. unfold in_img in H. cbn [e_cols e_rows mk_env] in H.
+  assert (0 <= x < 2 /\ 0 <= y < 2) as [Hx Hy] by (cbn in H; lia).
+  assert (Cx : x = 0 \/ x = 1) by lia. assert (Cy : y = 0 \/ y = 1) by lia.
+  destruct Cx, Cy; subst; vm_compute; split; congruence.
+Qed.
